@@ -9,7 +9,9 @@ import PV.Gen.C07Tables
   Reading guide.  `Spec.split lookup strict raw body off` is the reference scanner (CPython 3.11,
   pre-PEP 701 rules; validated against CPython itself on every run).  With `strict = true` it is
   restricted to the DOMAIN of the partial theorem: it answers `none` on exactly the shapes listed in
-  `Spec.lean` (each a known finding with a witness below).  `parseFString` is the model of the Rust
+  `Spec.lean` (one known finding with a witness below, and two shapes no source can produce or
+  the text/offset abstraction cannot judge).  The model mirrors /repo after the fixes c09f12b,
+  897a1b6, 40fcb23, dfa74fc and d717a96.  `parseFString` is the model of the Rust
   scanner; a field is `(expression text, absolute offset, conversion, nested spec)`.
   `Spec.merge` concatenates adjacent literal pieces and drops empty ones — what the reference does
   on the fly and `parse_strings` does afterwards (`dedup`).  `NoSurr body`: the body is a Rust `str`.
@@ -54,30 +56,24 @@ example : parseFString (fun _ => none) .fstr
            .lit [123, 98, 125], .lit [32, 121, 32, 61], .lit [32], .field [32, 121, 32] 19 .repr none] := by
   with_unfolding_all rfl
 
-/-! ### … and deviates outside it (witnesses on the model; each reproduced on the real code) -/
+-- the shapes repaired in /repo are inside the domain now:
+-- f'''{"""a"b"""}''' (triple-quoted string in a field)
+example : Spec.split (fun _ => none) true false [123, 34, 34, 34, 97, 34, 98, 34, 34, 34, 125] 4
+    = some [.field [34, 34, 34, 97, 34, 98, 34, 34, 34] 5 .none none] := by rfl
+example : parseFString (fun _ => none) .fstr [123, 34, 34, 34, 97, 34, 98, 34, 34, 34, 125] 4
+    = .ok [.field [34, 34, 34, 97, 34, 98, 34, 34, 34] 5 .none none] := by with_unfolding_all rfl
+-- f'{x=\t}' (a tab after the self-documenting '=')
+example : Spec.split (fun _ => none) true false [123, 120, 61, 9, 125] 2
+    = some [.lit [120, 61, 9], .field [120] 3 .repr none] := by rfl
+example : parseFString (fun _ => none) .fstr [123, 120, 61, 9, 125] 2
+    = .ok [.lit [120, 61], .lit [9], .field [120] 3 .repr none] := by with_unfolding_all rfl
+-- f'{x:\x3e5}' (escape in the literal text of a format spec)
+example : Spec.split (fun _ => none) true false [123, 120, 58, 92, 120, 51, 101, 53, 125] 2
+    = some [.field [120] 3 .none (some [.lit [62, 53]])] := by rfl
+example : parseFString (fun _ => none) .fstr [123, 120, 58, 92, 120, 51, 101, 53, 125] 2
+    = .ok [.field [120] 3 .none (some [.lit [62, 53]])] := by with_unfolding_all rfl
 
-/-- `f'''{"""a"b"""}'''`: the reference takes `"""a"b"""` as the expression; the scanner pairs
-    quotes one by one and reports an unterminated string. -/
-theorem fstring_deviates_triple_quote :
-    Spec.split (fun _ => none) false false [123, 34, 34, 34, 97, 34, 98, 34, 34, 34, 125] 4
-      = some [.field [34, 34, 34, 97, 34, 98, 34, 34, 34] 5 .none none] ∧
-    parseFString (fun _ => none) .fstr [123, 34, 34, 34, 97, 34, 98, 34, 34, 34, 125] 4
-      = .error ⟨.fstring .unterminatedString, 15⟩ := ⟨by rfl, by with_unfolding_all rfl⟩
-
-/-- `f'{x=\t}'`: the reference echoes `x=\t`; the scanner only accepts blanks after `=`. -/
-theorem fstring_deviates_selfdoc_whitespace :
-    Spec.split (fun _ => none) false false [123, 120, 61, 9, 125] 2
-      = some [.lit [120, 61, 9], .field [120] 3 .repr none] ∧
-    parseFString (fun _ => none) .fstr [123, 120, 61, 9, 125] 2
-      = .error ⟨.fstring .unclosedLbrace, 6⟩ := ⟨by rfl, by with_unfolding_all rfl⟩
-
-/-- `f'{x:\x3e5}'`: the reference decodes the escape in the format spec (`>5`); the scanner keeps
-    the five characters `\x3e5`. -/
-theorem fstring_deviates_spec_escape :
-    Spec.split (fun _ => none) false false [123, 120, 58, 92, 120, 51, 101, 53, 125] 2
-      = some [.field [120] 3 .none (some [.lit [62, 53]])] ∧
-    parseFString (fun _ => none) .fstr [123, 120, 58, 92, 120, 51, 101, 53, 125] 2
-      = .ok [.field [120] 3 .none (some [.lit [92, 120, 51, 101, 53]])] := ⟨by rfl, by with_unfolding_all rfl⟩
+/-! ### … and deviates outside it (witness on the model; reproduced on the real code) -/
 
 /-- `f'{x:{y=}}'`: inside a format spec the echo pieces of a self-documenting field stay unmerged
     (and an empty constant is kept). -/
@@ -87,24 +83,24 @@ theorem fstring_deviates_selfdoc_in_spec :
     parseFString (fun _ => none) .fstr [123, 120, 58, 123, 121, 61, 125, 125] 2
       = .ok [.field [120] 3 .none (some [.lit [121, 61], .lit [], .field [121] 6 .repr none])] := ⟨by rfl, by with_unfolding_all rfl⟩
 
-/-- hence the full statement fails on the unchanged code -/
+/-- hence the full statement fails on the code as it is -/
 theorem fstring_full_fails : ¬ fstring_full := by
   intro h
-  obtain ⟨qs, e, _⟩ := h (fun _ => none) ⟨fun _ _ => rfl, fun _ _ h => by cases h⟩ .fstr rfl
-    [123, 120, 61, 9, 125] (by intro x hx; revert x; decide) 2 _ fstring_deviates_selfdoc_whitespace.1
-  rw [fstring_deviates_selfdoc_whitespace.2] at e
+  obtain ⟨qs, e, hm⟩ := h (fun _ => none) ⟨fun _ _ => rfl, fun _ _ h => by cases h⟩ .fstr rfl
+    [123, 120, 58, 123, 121, 61, 125, 125] (by intro x hx; revert x; decide) 2 _ fstring_deviates_selfdoc_in_spec.1
+  rw [fstring_deviates_selfdoc_in_spec.2] at e
   cases e
+  simp [Spec.merge, Spec.mergeGo] at hm
 
 /-! ### merging of adjacent pieces across implicitly concatenated literals -/
 
 /-- `parse_strings` on a concatenation that contains an f-string: the pieces of all the tokens are
-    joined in order and adjacent constants merged as the reference does — unless a run of constant
-    pieces is present but empty (`noEmptyRun`, known finding `empty-literal-piece`); every constant
-    piece gets the `u` marker of the first token. -/
+    joined in order, adjacent constants merged and empty ones dropped exactly as the reference does
+    (`Spec.merge`); every constant piece gets the `u` marker of the first token. -/
 theorem merge_spec (lookup : List Nat → Option Nat) (toks : List StrTok) (u : Bool) (out : List Piece)
     (h : parseStringsF lookup toks = .ok (u, out)) :
     ∃ t0 ps, toks.head? = some t0 ∧ u = t0.kind.isUnicode ∧ allPieces lookup toks = .ok ps ∧
-      out = dedup none ps ∧ (noEmptyRun none ps = true → out = Spec.merge ps) := by
+      out = Spec.merge ps := by
   unfold parseStringsF at h
   split at h
   · cases h
@@ -118,12 +114,12 @@ theorem merge_spec (lookup : List Nat → Option Nat) (toks : List StrTok) (u : 
       | ok ps =>
         simp [hp] at h
         obtain ⟨rfl, rfl⟩ := h
-        exact ⟨t0, ps, rfl, rfl, rfl, rfl, fun hn => dedup_eq_merge ps none hn⟩
+        exact ⟨t0, ps, rfl, rfl, rfl, dedup_eq_merge ps none (by simp)⟩
 
-/-- `'' f'{x}'`: the empty plain literal survives as an empty constant piece; the reference drops it. -/
-theorem merge_fails_empty_literal :
-    dedup none [.lit [], .field [120] 6 .none none] = [.lit [], .field [120] 6 .none none] ∧
-    Spec.merge [.lit [], .field [120] 6 .none none] = [.field [120] 6 .none none] := ⟨by rfl, by with_unfolding_all rfl⟩
+-- '' f'{x}' '' : the empty plain literals leave no piece (repaired in /repo dfa74fc)
+example : parseStringsF (fun _ => none)
+    [⟨0, [], .str, false, 2⟩, ⟨3, [123, 120, 125], .fstr, false, 9⟩, ⟨10, [], .str, false, 12⟩]
+    = .ok (false, [.field [120] 6 .none none]) := by with_unfolding_all rfl
 
 example : parseStringsF (fun _ => none)
     [⟨0, [97], .unicode, false, 4⟩, ⟨5, [98, 123, 120, 125], .fstr, false, 12⟩, ⟨13, [99], .str, false, 16⟩,
